@@ -16,3 +16,12 @@ package pl
 //@   loop 1 invariant plDigits(code, $pos)
 //@   loop 2 invariant plDigits(code, 10) && len(digits) == 10 && forall j int :: 0 <= j && j < $pos ==> digits[j] == s_byte(code, j) - 48
 //@   loop 3 invariant plDigits(code, 10) && len(digits) == 10 && (forall j int :: 0 <= j && j < 10 ==> digits[j] == s_byte(code, j) - 48) && checkSum == plSum(code, idx)
+//
+// The whole rule: ten digits, the first not zero and the second and third not both zero
+// (the pattern), and the check above.
+//@ pred plFormat(s string) bool = len(s) == 10 && digitsIn(s, 0, 10) && s_byte(s, 0) != 48 && (s_byte(s, 1) != 48 || s_byte(s, 2) != 48)
+//@ pin taxIdentityRegexp regexp.MustCompile(taxIdentityPattern) /* taxIdentityPattern = "^[1-9]((\\d[1-9])|([1-9]\\d))\\d{7}$" */
+//@ global taxIdentityRegexp != nil && (forall s string :: reMatch(taxIdentityRegexp, s) <==> plFormat(s))
+//@ func validateTaxCode(value) (err)
+//@   ensures [iff] typeis(value, cbc.Code) && unboxed(value, cbc.Code) != "" ==> (err == nil <==> plFormat(unboxed(value, cbc.Code)) && plSum(unboxed(value, cbc.Code), 9) % 11 == s_byte(unboxed(value, cbc.Code), 9) - 48)
+//@   ensures [skip] !typeis(value, cbc.Code) || unboxed(value, cbc.Code) == "" ==> err == nil
